@@ -234,14 +234,12 @@ Definition log_eqb := list_eqb (fun a b : nat * nat => Nat.eqb (fst a) (fst b) &
 
 Definition cc_progs (c : ccase) : list script := map (op_script (cc_world c)) (cc_threads c).
 
-Definition is_warm := warm_b.
-
 (* summary bit mask of a concurrent case:
    1 agree (results, solo results, executed marked lines), 2 inside the guard of
-   warm_context_safe no thread differs from its solo run, 4 every difference is
-   explained (the model reproduces it and the context was cold or the requests
-   are not ns-closed), 8 some thread differs, 16 the guard holds, 32 the index was
-   not current (cold-index-race), 64 the requests are not ns-closed *)
+   context_safe no thread differs from its solo run, 4 every difference is explained
+   (the model reproduces it and the requests are not ns-closed), 8 some thread
+   differs, 16 the guard holds, 32 the context was cold, 64 the requests are not
+   ns-closed and a thread differs *)
 Definition ccase_summary (c : ccase) : nat :=
   let w := cc_world c in
   let st := warm_up w (cc_warm c) in
@@ -252,9 +250,7 @@ Definition ccase_summary (c : ccase) : nat :=
   let agree := lres_eqb mres (cc_results c) && lres_eqb msolo (cc_solo c) && log_eqb mlog (cc_log c) in
   let differs := negb (lres_eqb (cc_results c) (cc_solo c)) in
   let mdiffers := negb (lres_eqb mres msolo) in
-  let warm := is_warm w st in
-  let closed := conc_guard w (s_cache st) progs in
-  let g := warm && closed in
+  let g := conc_guard w st progs in
   (b2n agree 1 + b2n (negb g || negb differs) 2
-   + b2n (negb differs || (mdiffers && (negb warm || negb closed))) 4
-   + b2n differs 8 + b2n g 16 + b2n (differs && negb warm) 32 + b2n (differs && negb closed) 64)%nat.
+   + b2n (negb differs || (mdiffers && negb g)) 4
+   + b2n differs 8 + b2n g 16 + b2n (negb (warm_b w st)) 32 + b2n (differs && negb g) 64)%nat.
